@@ -56,19 +56,19 @@ namespace Chan
 section
 variable {b : String} {d : Chan}
 
-theorem mem_mbIdsB {m : String} : m ∈ d.mbIdsB b ↔ ∃ r ∈ d.mailboxes, r.app = b ∧ r.id = m := by
+theorem mem_mbIdsB_row {m : String} : m ∈ d.mbIdsB b ↔ ∃ r ∈ d.mailboxes, r.app = b ∧ r.id = m := by
   simp only [mbIdsB, mbsB, List.mem_map, List.mem_filter, decide_eq_true_eq]
   constructor
   · rintro ⟨r, ⟨h1, h2⟩, h3⟩; exact ⟨r, h1, h2, h3⟩
   · rintro ⟨r, h1, h2, h3⟩; exact ⟨r, ⟨h1, h2⟩, h3⟩
 
-theorem mem_npIdsB {k : Nat} : k ∈ d.npIdsB b ↔ ∃ n ∈ d.nameplates, n.app = b ∧ n.id = k := by
+theorem mem_npIdsB_row {k : Nat} : k ∈ d.npIdsB b ↔ ∃ n ∈ d.nameplates, n.app = b ∧ n.id = k := by
   simp only [npIdsB, npsB, List.mem_map, List.mem_filter, decide_eq_true_eq]
   constructor
   · rintro ⟨r, ⟨h1, h2⟩, h3⟩; exact ⟨r, h1, h2, h3⟩
   · rintro ⟨r, h1, h2, h3⟩; exact ⟨r, ⟨h1, h2⟩, h3⟩
 
-theorem mem_msgsB {r : Message} : r ∈ d.msgsB b ↔ r ∈ d.messages ∧ r.app = b := by
+theorem mem_msgsB_row {r : Message} : r ∈ d.msgsB b ↔ r ∈ d.messages ∧ r.app = b := by
   simp only [msgsB, List.mem_filter, decide_eq_true_eq]
 
 theorem SameB.npIdsB_eq {d' : Chan} (h : SameB b d d') : d'.npIdsB b = d.npIdsB b := by
@@ -98,7 +98,7 @@ theorem SameB.of_parts {d' : Chan}
 theorem not_mem_mbIdsB_of_hasMb' (hu : d.mailboxes.Pairwise (fun x y => ¬ x.id = y.id)) {a m : String}
     (hmb : d.HasMb a m) (hab : a ≠ b) : m ∉ d.mbIdsB b := by
   intro hm
-  obtain ⟨r, hr, e1, e2⟩ := mem_mbIdsB.1 hm
+  obtain ⟨r, hr, e1, e2⟩ := mem_mbIdsB_row.1 hm
   obtain ⟨r', hr', e1', e2'⟩ := hmb
   have : r = r' := eq_of_pairwise_ne (f := MailboxRow.id) hu hr hr' (by rw [e2, e1'])
   subst this
@@ -111,7 +111,7 @@ theorem not_mem_mbIdsB_of_hasMb (h : d.PInv) {a m : String} (hmb : d.HasMb a m) 
 /-- `SELECT * FROM mailboxes WHERE id=?` found nothing -/
 theorem not_mem_mbIdsB_of_findById_none {m : String} (h : d.findMailboxById m = none) : m ∉ d.mbIdsB b := by
   intro hm
-  obtain ⟨r, hr, _, e2⟩ := mem_mbIdsB.1 hm
+  obtain ⟨r, hr, _, e2⟩ := mem_mbIdsB_row.1 hm
   exact findMailboxById_none h r hr e2
 
 /-- a message's mailbox exists under the message's app (`PInv.msgFk`): no message of `b` is filed
@@ -119,9 +119,9 @@ theorem not_mem_mbIdsB_of_findById_none {m : String} (h : d.findMailboxById m = 
 theorem msgsB_ne_of_not_mem' (hfk : ∀ r ∈ d.messages, ∃ m ∈ d.mailboxes, m.id = r.mailbox ∧ m.app = r.app)
     {m : String} (hm : m ∉ d.mbIdsB b) : ∀ r ∈ d.msgsB b, ¬ r.mailbox = m := by
   intro r hr e
-  obtain ⟨h1, h2⟩ := mem_msgsB.1 hr
+  obtain ⟨h1, h2⟩ := mem_msgsB_row.1 hr
   obtain ⟨row, hrow, e1, e2⟩ := hfk r h1
-  exact hm (mem_mbIdsB.2 ⟨row, hrow, e2.trans h2, e1.trans e⟩)
+  exact hm (mem_mbIdsB_row.2 ⟨row, hrow, e2.trans h2, e1.trans e⟩)
 
 theorem msgsB_ne_of_not_mem (h : d.PInv) {m : String} (hm : m ∉ d.mbIdsB b) :
     ∀ r ∈ d.msgsB b, ¬ r.mailbox = m :=
@@ -131,7 +131,7 @@ theorem msgsB_ne_of_not_mem (h : d.PInv) {m : String} (hm : m ∉ d.mbIdsB b) :
 theorem not_mem_npIdsB_of_mem' (hu : d.nameplates.Pairwise (fun x y => ¬ x.id = y.id)) {n : Nameplate}
     (hn : n ∈ d.nameplates) (ha : n.app ≠ b) : n.id ∉ d.npIdsB b := by
   intro hm
-  obtain ⟨n', hn', e1, e2⟩ := mem_npIdsB.1 hm
+  obtain ⟨n', hn', e1, e2⟩ := mem_npIdsB_row.1 hm
   have : n' = n := eq_of_pairwise_ne (f := Nameplate.id) hu hn' hn e2
   subst this
   exact ha e1
@@ -143,7 +143,7 @@ theorem not_mem_npIdsB_of_mem (h : d.PInv) {n : Nameplate} (hn : n ∈ d.namepla
 /-- AUTOINCREMENT: the next id is not in use -/
 theorem nextNp_not_mem_npIdsB (h : d.IdsBounded) : d.nextNp ∉ d.npIdsB b := by
   intro hm
-  obtain ⟨n, hn, _, e2⟩ := mem_npIdsB.1 hm
+  obtain ⟨n, hn, _, e2⟩ := mem_npIdsB_row.1 hm
   have := h.1 n hn
   omega
 
@@ -186,7 +186,7 @@ theorem touch_sameB {m : String} (t : Time) (hm : m ∉ d.mbIdsB b) : SameB b d 
   · intro r hr e
     rw [if_neg]
     intro e'
-    exact hm (mem_mbIdsB.2 ⟨r, hr, e, e'⟩)
+    exact hm (mem_mbIdsB_row.2 ⟨r, hr, e, e'⟩)
 
 theorem unclaim_sameB {npid : Nat} (side : String) (hn : npid ∉ d.npIdsB b) : SameB b d (d.unclaim npid side) := by
   refine SameB.of_parts rfl ?_ rfl rfl rfl
@@ -227,7 +227,7 @@ theorem delNameplate_sameB {npid : Nat} (hn : npid ∉ d.npIdsB b) : SameB b d (
   intro n hmem hp
   simp only [decide_eq_true_eq, decide_not, Bool.not_eq_eq_eq_not, Bool.not_true, decide_eq_false_iff_not] at hp ⊢
   intro e
-  exact hn (mem_npIdsB.2 ⟨n, hmem, hp, e⟩)
+  exact hn (mem_npIdsB_row.2 ⟨n, hmem, hp, e⟩)
 
 /-- nameplate ids are unique, so the ids of `a`'s nameplates are not ids of `b` -/
 theorem delNpSidesOfMailbox_sameB' (hu : d.nameplates.Pairwise (fun x y => ¬ x.id = y.id)) (a m : String)
@@ -263,7 +263,7 @@ theorem delMessagesOf_sameB' {m : String} (hm : ∀ r ∈ d.msgsB b, ¬ r.mailbo
   intro r hmem hp
   simp only [decide_eq_true_eq] at hp
   apply decide_eq_true
-  exact hm r (mem_msgsB.2 ⟨hmem, hp⟩)
+  exact hm r (mem_msgsB_row.2 ⟨hmem, hp⟩)
 
 theorem delMessagesOf_sameB (h : d.PInv) {m : String} (hm : m ∉ d.mbIdsB b) : SameB b d (d.delMessagesOf m) :=
   delMessagesOf_sameB' (msgsB_ne_of_not_mem h hm)
@@ -284,7 +284,7 @@ theorem delMailbox_sameB {m : String} (hm : m ∉ d.mbIdsB b) : SameB b d (d.del
   simp only [decide_eq_true_eq] at hp
   apply decide_eq_true
   intro e
-  exact hm (mem_mbIdsB.2 ⟨r, hmem, hp, e⟩)
+  exact hm (mem_mbIdsB_row.2 ⟨r, hmem, hp, e⟩)
 
 /-! ### convenience forms: a mailbox row `(a, m)` exists, `a ≠ b` -/
 
